@@ -738,9 +738,55 @@ def _terms_powell(case, obs):
 
 # ------------------------------------------------------------------ module interface
 
+def _gen_smallpop(rng):
+    """a population too small for the strategy to pick DISTINCT other members: the solver has to refuse, not fabricate a trial"""
+    name = rng.choice(["Best2Exp", "Best2Bin", "Rand2Exp", "Rand2Bin"])
+    NP = rng.choice([4] if FAMILY[name] == "Best2" else [4, 5])
+    D = rng.choice([1, 2, 3])
+    return dict(kind="smallpop", solver=rng.choice([1, 2]), name=name, NP=NP, D=D, pop=[[rng.randint(-8, 8) / 4.0 for _ in range(D)] for _ in range(NP)],
+                obj=gen_objective(rng, D, fams=["quad", "l1"]), seed=rng.randrange(10 ** 6))
+
+
+def _run_smallpop(case):
+    import random
+    from mystic.differential_evolution import DifferentialEvolutionSolver, DifferentialEvolutionSolver2
+    from mystic.termination import VTR
+    cls = DifferentialEvolutionSolver if case["solver"] == 1 else DifferentialEvolutionSolver2
+    solver = cls(case["D"], case["NP"])
+    for i in range(solver.nPop):
+        solver.population[i][:] = list(case["pop"][i])
+    random.seed(case["seed"])
+    solver.SetTermination(VTR(-1e300)); solver.SetEvaluationLimits(10 ** 6, 10 ** 9)
+    f = objective(case["obj"])
+    out = dict(nPop=int(solver.nPop))
+    try:
+        from mystic import strategy as S
+        strat = getattr(S, case["name"])
+        solver.Step(f, strategy=strat, disp=False)      # generation 0
+        before = [[float(v) for v in r] for r in solver.population]
+        solver.Step(strategy=strat, disp=False)
+        out["stepped"] = True
+        out["changed"] = [[float(v) for v in r] for r in solver.population] != before
+    except ValueError as e:
+        out["raised"] = "ValueError"
+    return out
+
+
+def _oracle_smallpop(case, obs):
+    need = NSAMPLE[FAMILY[case["name"]]]
+    if obs.get("nPop", 0) - 1 >= need:
+        return []           # the solver enlarged the population itself: distinct members exist
+    if "raised" in obs:
+        return []
+    return [_fail("distinct_members", "strategy." + case["name"], "trial-built-without-enough-distinct-members",
+                  dict(nPop=obs.get("nPop"), needs=need, obs=obs))]
+
+
 def generate(rng, n, tier):
     kinds = ["strategy"] * 7 + ["degen"] * 3 + ["nm"] * 6 + ["powell"] * 6
     for i in range(n):
+        if rng.random() < 0.02:
+            yield _gen_smallpop(rng); continue
         k = rng.choice(kinds)
         if k == "strategy":
             yield _gen_strategy(rng)
@@ -758,6 +804,8 @@ def run_impl(case):
         return _run_strategy(case)
     if k == "degen":
         return _run_degen(case)
+    if k == "smallpop":
+        return _run_smallpop(case)
     if k in ("nm", "nmapi"):
         return _run_nm(case)
     if k == "powell":
@@ -773,6 +821,8 @@ def oracle(case, obs):
         return _oracle_strategy(case, obs)
     if k == "degen":
         return _oracle_degen(case, obs)
+    if k == "smallpop":
+        return _oracle_smallpop(case, obs)
     if k in ("nm", "nmapi"):
         return _oracle_nm(case, obs)
     if k == "powell":
